@@ -23,6 +23,8 @@ var bitwordIdentity = func() map[int]bitword.Interface {
 // Snapshot of the unexported tables, taken by the FIRST checkTables call after its behavioural part has
 // used every table once: "after initialisation" in the statement allows a table that is built lazily
 // (and race-free) on first use; from then on it must never change.
+var tableTick int
+
 var (
 	hookSelectAtStart []uint8
 	hookIdxAtStart    [][]uint64
@@ -67,8 +69,17 @@ func checkTables() string {
 			return fmt.Sprintf("bitword.BitWord[%d] was replaced", k)
 		}
 	}
-	// behaviourally: every readable select8Lookup entry via Select32 on one-byte words at every byte position
-	for pos := 0; pos < 8; pos += 7 {
+	// the state behind the BitWord entries (width, words per byte, mask - whatever the library keeps there):
+	// every method of every width on fixed inputs against expectations computed here from the definition
+	if m := bitwordProbe(); m != "" {
+		return m
+	}
+	// behaviourally: every readable select8Lookup entry via Select32 on one-byte words at every byte position.
+	// Once the hook snapshot of the unexported tables exists (verif build) the tables themselves are compared
+	// on every call below, and these slower behavioural probes run on every 8th call only.
+	tableTick++
+	behavioural := !hooksOn || !hookSnapshotTaken || tableTick%8 == 0
+	for pos := 0; behavioural && pos < 8; pos += 7 {
 		for b := 1; b < 256; b++ {
 			w := []uint64{uint64(b) << uint(8*pos)}
 			ix := bitmap.IndexSelect32(w)
@@ -85,7 +96,7 @@ func checkTables() string {
 		}
 	}
 	// every idxToPath entry via IndexToPath on heights 0..3
-	for h := 0; h <= 3; h++ {
+	for h := 0; behavioural && h <= 3; h++ {
 		tr := model.NewTree(int32(1)<<uint(h+1) - 1)
 		bad := ""
 		tr.Walk(func(prefix uint64, l int, _ bool, index int64) {
@@ -127,4 +138,75 @@ func checkTables() string {
 		}
 	}
 	return ""
+}
+
+// bitwordAll: every 4-bit value in both halves of a byte (so every 1- and 2-bit value at every
+// position too), then bytes with mixed halves; at least 40 bytes (FirstDiff probe).
+var bitwordAll = func() string {
+	b := make([]byte, 48)
+	for i := range b {
+		if i < 16 {
+			b[i] = byte(i * 17)
+		} else {
+			b[i] = byte(i*167 + 13)
+		}
+	}
+	return string(b)
+}()
+
+// wordsOf splits s into n-bit words, most significant first (the definition of bitword.FromStr).
+func wordsOf(s string, n int) []byte {
+	var out []byte
+	for i := 0; i < len(s); i++ {
+		for sh := 8 - n; sh >= 0; sh -= n {
+			out = append(out, s[i]>>uint(sh)&byte(1<<uint(n)-1))
+		}
+	}
+	return out
+}
+
+func bitwordProbe() string {
+	for _, n := range []int{1, 2, 4, 8} {
+		bw := bitword.BitWord[n]
+		want := wordsOf(bitwordAll, n)
+		got := bw.FromStr(bitwordAll)
+		if string(got) != string(want) {
+			return fmt.Sprintf("bitword.BitWord[%d].FromStr(48 probe bytes) no longer splits into %d-bit words (first difference at word %d): the state behind the table entry changed", n, n, firstDiffAt(got, want))
+		}
+		if back := bw.ToStr(want); back != bitwordAll {
+			return fmt.Sprintf("bitword.BitWord[%d].ToStr(words of 48 probe bytes) no longer gives the bytes back: the state behind the table entry changed", n)
+		}
+		for i := 0; i < len(want); i += 1 + i/8 {
+			if g := bw.Get(bitwordAll, i); g != want[i] {
+				return fmt.Sprintf("bitword.BitWord[%d].Get(48 probe bytes, %d) = %d, want %d: the state behind the table entry changed", n, i, g, want[i])
+			}
+		}
+		if g := bw.Get(bitwordAll, len(want)-1); g != want[len(want)-1] {
+			return fmt.Sprintf("bitword.BitWord[%d].Get(.., last word) = %d, want %d: the state behind the table entry changed", n, g, want[len(want)-1])
+		}
+		// FirstDiff: strings that differ in their last bit only
+		a, b := bitwordAll[:40], bitwordAll[:39]+string([]byte{bitwordAll[39] ^ 1})
+		per := 8 / n
+		if d := bw.FirstDiff(a, b, 0, -1); d != 40*per-1 {
+			return fmt.Sprintf("bitword.BitWord[%d].FirstDiff(strings that differ in their last bit, 0, -1) = %d, want %d: the state behind the table entry changed", n, d, 40*per-1)
+		}
+		// (what FirstDiff returns when there is no difference in the range is not documented: not probed)
+		if d := bw.FirstDiff(a, b, 3*per, 40*per); d != 40*per-1 {
+			return fmt.Sprintf("bitword.BitWord[%d].FirstDiff(strings that differ in their last bit, %d, %d) = %d, want %d: the state behind the table entry changed", n, 3*per, 40*per, d, 40*per-1)
+		}
+		strs := bw.ToStrs(bw.FromStrs([]string{bitwordAll[:3], "", bitwordAll[41:]}))
+		if len(strs) != 3 || strs[0] != bitwordAll[:3] || strs[1] != "" || strs[2] != bitwordAll[41:] {
+			return fmt.Sprintf("bitword.BitWord[%d].ToStrs(FromStrs(..)) no longer gives the strings back: the state behind the table entry changed", n)
+		}
+	}
+	return ""
+}
+
+func firstDiffAt(a, b []byte) int {
+	for i := 0; i < len(a) && i < len(b); i++ {
+		if a[i] != b[i] {
+			return i
+		}
+	}
+	return min(len(a), len(b))
 }
